@@ -93,6 +93,8 @@ def check(ctx):
     base += [("sv", "module m #(parameter P = 1) (input [P-1:0] a, output reg b);\n  always @(posedge a[0]) begin b <= {a[0], 1'b0} == 2'b10; end\n"
                     "  function f; input x; begin f = (x) ? 1 : 0; end endfunction\n  generate if (P) begin : g wire w; end endgenerate\nendmodule\n"),
              ("lib", "library l \"*.v\" -incdir \"a\";\nconfig c; design d; endconfig\n")]
+    # characters of several bytes in front of everything (positions are byte offsets, in the text and in the files)
+    base = [(k, ("// caf\u00e9 \u2014 \u4e2d\u6587 \U0001F600\n/* \u00f1\u2014\u2014\u2014 */ " + s) if (i % 3 == 1 and k == "sv") else s) for i, (k, s) in enumerate(base)]
     # 1. accepted sources and their trees
     c0 = []
     for i, (k, s) in enumerate(base):
